@@ -1392,6 +1392,61 @@ impl Exec {
         });
     }
 
+    /// `rootless_mutate`: the temporary arena must destruct everything the callback allocated,
+    /// whether the callback returns or panics (C04 / C11); runs on its own arena, off the shadow model.
+    pub fn rootless_step(&mut self, n: u8, cyclic: bool, panics: bool) {
+        use gc_arena::{Gc, RefLock, Static};
+        use std::rc::Rc;
+        #[derive(gc_arena::Collect)]
+        #[collect(no_drop)]
+        struct Node<'gc> {
+            token: Static<Rc<()>>,
+            next: RefLock<Option<Gc<'gc, Node<'gc>>>>,
+        }
+        let n = n as usize % 6 + 1;
+        let token = Rc::new(());
+        let seen = std::cell::Cell::new(0usize);
+        let prev_quiet = obs::set_quiet_panics(true);
+        let r = obs::untracked(|| {
+            std::panic::catch_unwind(std::panic::AssertUnwindSafe(|| {
+                gc_arena::arena::rootless_mutate(|mc| {
+                    let mut nodes: Vec<Gc<'_, Node<'_>>> = Vec::new();
+                    for _ in 0..n {
+                        let node = Gc::new(mc, Node { token: Static(token.clone()), next: RefLock::new(None) });
+                        if let Some(prev) = nodes.last() {
+                            *gc_arena::barrier::unlock!(Gc::write(mc, node), Node, next).borrow_mut() = Some(*prev);
+                        }
+                        nodes.push(node);
+                    }
+                    if cyclic {
+                        *gc_arena::barrier::unlock!(Gc::write(mc, nodes[0]), Node, next).borrow_mut() = Some(*nodes.last().unwrap());
+                    }
+                    let _plain = Gc::new(mc, Static(token.clone()));
+                    seen.set(Rc::strong_count(&token));
+                    if panics {
+                        std::panic::panic_any(obs::CALLBACK_PANIC);
+                    }
+                })
+            }))
+        });
+        obs::set_quiet_panics(prev_quiet);
+        self.cov.rootless_calls += 1;
+        if panics {
+            self.cov.rootless_panics += 1;
+        }
+        let prop: &'static str = if panics { "C11" } else { "C04" };
+        if seen.get() != n + 2 {
+            self.violate(prop, "rootless-premature-destruct", format!("rootless_mutate: {} of {} values allocated inside the callback were already destructed before it ended", (n + 2).saturating_sub(seen.get()), n + 1));
+        }
+        if r.is_err() != panics {
+            self.violate(prop, "rootless-outcome", format!("rootless_mutate: callback panics = {panics}, call unwound = {}", r.is_err()));
+        }
+        let left = Rc::strong_count(&token) - 1;
+        if left != 0 {
+            self.violate(prop, "rootless-leak", format!("rootless_mutate (callback {}): {left} of {} values allocated inside the callback were never destructed", if panics { "panicked" } else { "returned" }, n + 1));
+        }
+    }
+
     pub fn handle_clone_step(&mut self, h: u8) {
         if self.handles.is_empty() {
             return;
@@ -1597,6 +1652,7 @@ impl Exec {
                 }
             }
             Step::PlainRootProtocol { root, variant } => self.plain_root_step(*root, *variant),
+            Step::Rootless { n, cyclic, panics } => self.rootless_step(*n, *cyclic, *panics),
         }
     }
 
